@@ -11,6 +11,8 @@ mod cache;
 mod clones;
 #[path = "reuse/convert.rs"]
 mod convert;
+#[path = "reuse/cursor.rs"]
+mod cursor;
 #[path = "reuse/dw.rs"]
 mod dw;
 #[path = "reuse/entry.rs"]
@@ -32,12 +34,14 @@ fn c20(tier: Tier) -> CheckDef {
     subs.extend(clones::subs(tier));
     subs.extend(cache::subs(tier));
     subs.extend(convert::subs(tier));
+    subs.extend(cursor::subs(tier));
     let mut required = vec![];
     required.extend(unwind::required());
     required.extend(entry::required());
     required.extend(clones::required());
     required.extend(cache::required());
     required.extend(convert::required());
+    required.extend(cursor::required());
     CheckDef {
         level: "model_checking",
         rule: "explicit-state exploration of operation histories on ONE piece of reusable state (UnwindContext, DebuggingInformationEntry buffer, EntriesTree, cloned iterator, Dwarf with AbbreviationsCache); every history up to the stated length is executed on the real code and EVERY step's observable result sequence is compared with the same operation on freshly constructed state; a case is distinct when its action sequence (and input configuration) differs; distinct_nontrivial counts histories (for BFS subs: unique states by the complete Debug rendering of the context); states/transitions: BFS subs count unique states and executed transitions, enumeration subs count executed steps as transitions and histories as traces".into(),
